@@ -438,7 +438,13 @@ Init_(s, role) == IF role = "L" THEN LeaderInit(s)
                   ELSE IF role = "C" THEN StartElection(s)
                   ELSE [s EXCEPT !.aborted = FALSE]
 \* a node that closed itself (removed): stateLoop returns, the current role is released; nothing is flushed
-Stopped(s) ==
+\* (Serve closes the FSM channel only after the state loop returned: the FSM goroutine first finishes its queue,
+\*  answering the tasks in it)
+\* (Raft.release first waits for a snapshot in progress and handles its completion)
+RECURSIVE FsmDrain(_)
+RECURSIVE FinishSnapshot(_)
+Stopped(s0) ==
+    LET s == FsmDrain(FinishSnapshot(s0)) IN
     [s EXCEPT !.up = FALSE, !.state = "D", !.cur = "D", !.leader = None, !.commit = 0,
               !.log = SubSeq(@, 1, s.synced - s.logPrev), !.term = s.dterm, !.vote = s.dvote,
               !.aborted = FALSE, !.votesNeeded = 0, !.selfVote = FALSE, !.cndTransfer = FALSE,
@@ -485,7 +491,6 @@ FsmItem(s) ==
        ELSE IF it.kind = "restore"
        THEN [s0 EXCEPT !.fsmIdx = s0.snapIdx, !.fsmTerm = s0.snapTerm, !.fsmCmds = s0.snapCmds]
        ELSE s0
-RECURSIVE FsmDrain(_)
 FsmDrain(s) == IF s.up /\ s.died = "" /\ s.fsmQ # << >> THEN FsmDrain(FsmItem(s)) ELSE s
 
 --------------------------------------------------------------------------
@@ -653,16 +658,28 @@ Abandoned(before, after, T) ==
 
 \* every action ends here. T = the nodes this step touched (all others are exactly as the previous step left them)
 Commit(ns0, newRpcs, newOrph, e) ==
-    \E ns \in {ns0} :   \* (forces the handler result to be evaluated exactly once)
-    LET T    == {n \in Node : ns[n] # node[n]}
-        ns1  == [n \in Node |-> IF n \in T THEN SettleNode(ns[n]) ELSE ns[n]]
-        acts == UNION {ns[n].acts : n \in T}
+    \E nsx \in {ns0} :   \* (forces the handler result to be evaluated exactly once)
+    LET T    == {n \in Node : nsx[n] # node[n]}
+        \* processes that stopped in this step (crash, shutdown, self-removal, death by panic)
+        gone == {n \in T : node[n].up /\ (~nsx[n].up \/ nsx[n].died # "")}
+        \* connections whose server side is gone are dead: nothing written on them is handled any more
+        ns   == IF gone = {} THEN nsx
+                ELSE [m \in Node |-> IF m \notin gone /\ nsx[m].up /\ nsx[m].ldr.on /\ (DOMAIN nsx[m].ldr.repl) \cap gone # {}
+                                      THEN [nsx[m] EXCEPT !.ldr.repl = [j \in DOMAIN nsx[m].ldr.repl |->
+                                                IF j \in gone THEN [nsx[m].ldr.repl[j] EXCEPT !.reqs = << >>, !.pdead = nsx[m].ldr.repl[j].up]
+                                                ELSE nsx[m].ldr.repl[j]]]
+                                      ELSE nsx[m]]
+        T2   == {n \in Node : ns[n] # node[n]}
+        ns1  == [n \in Node |-> IF n \in T2 THEN SettleNode(ns[n]) ELSE ns[n]]
+        acts == UNION {ns[n].acts : n \in T2}
         e1   == e @@ [rf |-> rfc, acts |-> acts]
+        rp   == newRpcs \cup UNION {ns[n].outbox : n \in T2}
+        op   == IF Orphans THEN newOrph \o Abandoned(node, ns1, T2) ELSE newOrph
     IN
     /\ node' = ns1
-    /\ rpcs' = newRpcs \cup UNION {ns[n].outbox : n \in T}
-    /\ orph' = (IF Orphans THEN newOrph \o Abandoned(node, ns1, T) ELSE newOrph)
-    /\ gh' = GhostStep(gh, node, ns1, e1, T)
+    /\ rpcs' = {m \in rp : m.from \notin gone}
+    /\ orph' = SelectSeq(op, LAMBDA o : o.to \notin gone)
+    /\ gh' = GhostStep(gh, node, ns1, e1, T2)
     /\ ev' = e1
     /\ hist' = IF KeepHist THEN Append(hist, e @@ [rf |-> rfc]) ELSE hist
     /\ LET pend == ctr.cfgReqs < MaxCfgReqs \/ (\E n \in Node : HasActions(ns1[n].cfgL.nodes))
@@ -769,7 +786,10 @@ ReplSend(i, j) ==
                         w  == IF s3.died # "" THEN [s |-> s3, kind |-> "died"] ELSE ReplWrite(s3, j)
                     IN Commit([node EXCEPT ![i] = Post(MaybeLdrUpdates(w.s)), ![j] = t1], rpcs, orph,
                               WriteEv(w, i, j, "probe") @@ [connect |-> "ok"])
-          ELSE LET s1 == IF EagerPoll THEN Poll(s, j) ELSE s
+          ELSE LET \* pipeline writer: an update consumed by checkLeaderUpdate makes it write even when nothing is new
+                   s1 == IF ~EagerPoll THEN s
+                         ELSE IF Repl(s, j).lu.on /\ Repl(s, j).mode = "pipe" THEN [Poll(s, j) EXCEPT !.ldr.repl[j].canWrite = TRUE]
+                         ELSE Poll(s, j)
                    r1 == Repl(s1, j)
                IN IF s1.died # "" THEN Commit([node EXCEPT ![i] = s1], rpcs, orph, [kind |-> "replSend", i |-> i, j |-> j, died |-> TRUE])
                   ELSE
@@ -989,6 +1009,18 @@ OnSnapshotTaken(s) ==
                      IN IF canC > nowC THEN NotifyFlr([sb EXCEPT !.ldr.removeLTE = canC], FALSE) ELSE sb
                 ELSE s0
             IN [s1 EXCEPT !.done = Append(@, [task |-> g.task, res |-> "ok", pos |-> g.idx])]
+\* Raft.release at the end of the state loop: `r.onSnapshotTaken(<-r.snapTakenCh)`; the FSM goroutine is still serving
+RECURSIVE FsmUntilAnswered(_)
+FsmUntilAnswered(s) == IF s.up /\ s.died = "" /\ s.snapG.pc = "asked" /\ s.fsmQ # << >> THEN FsmUntilAnswered(FsmItem(s)) ELSE s
+FinishSnapshot(s) ==
+    IF s.snapG.pc = "idle" THEN s
+    ELSE LET s1 == IF s.snapG.pc = "start"
+                   THEN [s EXCEPT !.snapG.pc = "asked", !.fsmQ = Append(@, [kind |-> "snapReq", target |-> s.snapG.target])] ELSE s
+             s2 == FsmUntilAnswered(s1)
+             g  == s2.snapG
+             s3 == IF g.pc = "got" THEN [s2 EXCEPT !.snapIdx = g.idx, !.snapTerm = g.term, !.snapCfg = g.cfg, !.snapCmds = g.cmds, !.snapG.pc = "stored"]
+                   ELSE IF g.pc = "err" THEN [s2 EXCEPT !.snapG.pc = "stored"] ELSE s2
+         IN IF s3.snapG.pc = "stored" THEN OnSnapshotTaken(s3) ELSE s3
 SnapshotTaken(n) ==
     /\ Up(n) /\ node[n].snapG.pc = "stored"
     /\ Commit([node EXCEPT ![n] = Post(OnSnapshotTaken(node[n]))], rpcs, orph, [kind |-> "snapTaken", n |-> n])
@@ -998,21 +1030,22 @@ SnapshotTaken(n) ==
 Crash(n) ==
     /\ node[n].up /\ ctr.crashes < MaxCrash
     /\ LET s == node[n]
+           \* requests the dying leader had written may still reach their destinations
            left == IF s.ldr.on
                    THEN Concat([j \in DOMAIN s.ldr.repl |-> ReqsOf(s, n, j)], SetToSeq(DOMAIN s.ldr.repl))
                    ELSE << >>
-           \* connections whose server side was n are dead: their unhandled requests are gone
-           ns1 == [m \in Node |-> IF m # n /\ node[m].ldr.on /\ n \in DOMAIN node[m].ldr.repl
-                                  THEN [node[m] EXCEPT !.ldr.repl[n].reqs = << >>, !.ldr.repl[n].pdead = node[m].ldr.repl[n].up] ELSE node[m]]
-       IN Commit([ns1 EXCEPT ![n] = Crashed(s)],
-                 {m \in rpcs : ~(m.from = n)},
-                 SelectSeq(IF Orphans THEN orph \o left ELSE orph, LAMBDA o : o.to # n),
-                 [kind |-> "crash", n |-> n])
+       IN Commit([node EXCEPT ![n] = Crashed(s)], rpcs, IF Orphans THEN orph \o left ELSE orph, [kind |-> "crash", n |-> n])
     /\ ctr' = [ctr EXCEPT !.crashes = @ + 1]
+
+\* Raft.Shutdown: doClose(ErrServerClosed); the state loop returns, the current role is released
+Shutdown(n) ==
+    /\ Up(n)
+    /\ Commit([node EXCEPT ![n] = Post([node[n] EXCEPT !.closed = TRUE])], rpcs, orph, [kind |-> "shutdown", n |-> n])
+    /\ UNCHANGED ctr
 
 \* storage.go openStorage + raft.go Serve
 NewestCfgs(s) ==
-    LET idxs == CfgIdxs(s)
+    LET idxs == {i \in CfgIdxs(s) : i > s.snapIdx}   \* (the scan stops at the snapshot index even if older entries are retained)
         top  == IF idxs = {} THEN 0 ELSE SetMax(idxs)
         rest == idxs \ {top}
         snd  == IF rest = {} THEN 0 ELSE SetMax(rest)
